@@ -2,6 +2,7 @@ package astisub
 
 import (
 	"bytes"
+	"io"
 	"strconv"
 	"time"
 )
@@ -524,5 +525,54 @@ func VH_C01_WriteMarkup() {
 			}
 		}
 	}
+	vreach("end")
+}
+
+// vc01TwoChunks delivers data[:k], then the rest, then EOF: the small-scale equivalent of a line break falling on
+// the boundary of the scanner's 4096-byte buffer in a long document.
+type vc01TwoChunks struct {
+	data []byte
+	k    int
+	pos  int
+}
+
+func (r *vc01TwoChunks) Read(p []byte) (int, error) {
+	if r.pos >= len(r.data) {
+		return 0, io.EOF
+	}
+	end := len(r.data)
+	if r.pos < r.k {
+		end = r.k
+	}
+	n := copy(p, r.data[r.pos:end])
+	r.pos += n
+	return n, nil
+}
+
+// C01 line endings at a buffer boundary: a document in each line-ending convention denotes the same cues wherever
+// the reader's buffer boundary falls (every split position of a two-read delivery, in particular between CR and LF).
+func VH_C01_LineEndingBoundary() {
+	eol := []string{"\n", "\r\n", "\r"}[choose(3)]
+	doc := "1" + eol + "00:00:01,000 --> 00:00:02,500" + eol + "a" + eol + "b" + eol + eol + "2" + eol + "00:00:03,000 --> 00:00:04,000" + eol + "c" + eol
+	data := []byte(doc)
+	k := choose(len(data) + 1)
+	vreach("pre")
+	s, err := ReadFromSRT(&vc01TwoChunks{data: data, k: k})
+	vassert(err == nil, "C01 boundary: document is read")
+	if err != nil {
+		return
+	}
+	vassert(len(s.Items) == 2, "C01 boundary: two cues whatever the line-ending convention and buffer boundary")
+	if len(s.Items) != 2 {
+		return
+	}
+	a, b := s.Items[0], s.Items[1]
+	vassert(a.StartAt == time.Second && a.EndAt == 2500*time.Millisecond, "C01 boundary: first cue times")
+	vassert(b.StartAt == 3*time.Second && b.EndAt == 4*time.Second, "C01 boundary: second cue times")
+	vassert(len(a.Lines) == 2 && len(b.Lines) == 1, "C01 boundary: text lines of each cue")
+	if len(a.Lines) == 2 && len(b.Lines) == 1 {
+		vassert(a.Lines[0].String() == "a" && a.Lines[1].String() == "b" && b.Lines[0].String() == "c", "C01 boundary: line texts")
+	}
+	vassert(a.Index == 1 && b.Index == 2, "C01 boundary: cue numbers")
 	vreach("end")
 }
